@@ -161,11 +161,34 @@ func runC13(c *Ctx) {
 			_ = nc
 			// the handshake response is not inspected (no redirect following)
 			used := false
-			for _, r := range Refs(d.(ssa.Value)) {
-				if e, ok := r.(*ssa.Extract); ok && e.Index == 1 && len(Refs(e)) > 0 {
-					used = true
+			var respUsed func(tuple ssa.Value, depth int) bool
+			respUsed = func(tuple ssa.Value, depth int) bool {
+				for _, r := range Refs(tuple) {
+					e, ok := r.(*ssa.Extract)
+					if !ok || e.Index != 1 {
+						continue
+					}
+					for _, u := range Refs(e) {
+						if _, isDbg := u.(*ssa.DebugRef); isDbg {
+							continue
+						}
+						// handed back by a new helper as its own second result: judged at the call sites
+						if ret, isRet := u.(*ssa.Return); isRet && depth < 3 && len(ret.Results) == 3 && ret.Results[1] == ssa.Value(e) {
+							if info := helperOf(ret.Parent()); info != nil {
+								for _, site := range info.sites {
+									if sv, isV := site.(ssa.Value); isV && respUsed(sv, depth+1) {
+										return true
+									}
+								}
+								continue
+							}
+						}
+						return true
+					}
 				}
+				return false
 			}
+			used = respUsed(d.(ssa.Value), 0)
 			c.Check("C13.D", fmt.Sprintf("dial#%d:handshake-response-unused", k+1), p, d.Pos(), !used, "the handshake response is discarded: no Location/redirect can steer a further dial", "the handshake response of the dial is used: a backend redirect (Location) can steer the agent to another host")
 		}
 	}
